@@ -3,7 +3,7 @@
    split_at / next / len of the two producers are the definitions GENERATED from src/utils.rs (Gen/Grid.v). *)
 From Coq Require Import String.
 From Coq Require Import List Arith Bool Lia Reals.
-From SpdVerif Require Import Base.GridOps Gen.Grid Model.Grid Model.Producer Proofs.C15_generic Proofs.C15_inst Model.C15_Float Proofs.C15_float Gen.C15_Reductions Proofs.C15_sites Model.C15_Bridge Proofs.C15_bridge.
+From SpdVerif Require Import Base.GridOps Gen.Grid Model.Grid Model.Producer Proofs.C15_generic Proofs.C15_inst Model.C15_Float Proofs.C15_float Gen.C15_Reductions Proofs.C15_sites Model.C15_Bridge Proofs.C15_bridge Gen.C15_ParSites Proofs.C15_parsites Gen.Ranges Proofs.C14_ranges.
 Import ListNotations.
 
 (* 1. 2-D grids: every split tree delivers the same points in the same positions — for EVERY carrier, hence bit-exactly *)
@@ -119,8 +119,33 @@ Theorem C15_simpson_branches :
   (forall d, simpson_else_range d = simpson_then_range d) /\ (forall d, range_list (simpson_then_range d) = seq 0 (S d)).
 Proof. exact simpson_branches. Qed.
 
-(* 5'''. every reduction call site of the crate (generated table) is sequential or an instance of one of the theorems above,
-   and the table (sources, bindings, closures) is the pinned one *)
+(* 5'''. CENSUS of every parallel call site of the crate (generated from all of src/; the generator fails when the text mentions a
+   parallel construct it did not find in a parsed body): each descriptor classifies into a shape and the shape's statement — a
+   universally quantified theorem about the drivers of Model/Producer.v over the custom producers, rayon's Vec producer and rayon's
+   range producer, for EVERY admissible split tree — holds.  Sites using par_bridge, for_each, reduce, fold, rayon::join/scope/spawn
+   or any other entry / adaptor / terminal do not classify, and this theorem fails.  (The link descriptor -> rayon adaptor semantics
+   is the hand model of Map / Enumerate / Collect / Sum.) *)
+Theorem C15_par_sites_sound : Forall (fun s => exists sh, classify s = Some sh /\ shape_holds sh) par_sites.
+Proof. exact par_sites_sound. Qed.
+
+Theorem C15_census_complete :
+  forallb in_census ["JointSpectrum::jsa_range"; "JointSpectrum::jsa_normalized_range"; "JointSpectrum::jsi_range"; "JointSpectrum::jsi_normalized_range";
+                     "JointSpectrum::jsi_singles_range"; "JointSpectrum::jsi_singles_idler_range"; "JointSpectrum::jsi_singles_normalized_range";
+                     "JointSpectrum::jsi_singles_idler_normalized_range";
+                     "FrequencySpace::into_signal_idler_par_iterator"; "SumDiffFrequencySpace::into_signal_idler_par_iterator";
+                     "WavelengthSpace::into_signal_idler_par_iterator"; "SignalIdlerWavelengthArray::into_signal_idler_par_iterator";
+                     "SignalIdlerFrequencyArray::into_signal_idler_par_iterator";
+                     "simpson"; "simpson2d"; "counts_coincidences"; "counts_singles_signal"; "counts_singles_idler"; "hom_rate"; "SPDC::hom_rate_series"]%string = true
+  /\ List.length par_sites = 21.
+Proof. exact census_complete. Qed.
+
+(* the range evaluators' call table (same generated table as C14): map of the point function, argument order, collect *)
+Theorem C15_range_table :
+  forallb entry_ok range_calls = true /\ has "jsa_range" = true /\ has "jsi_range" = true /\ has "jsi_singles_range" = true.
+Proof. exact range_table_ok. Qed.
+
+(* 5''''. PINNED, not proved: the detailed table of the reduction sites (sources, bindings, closure texts) is the expected one; its
+   class labels are names of the theorems above (the semantic statement is C15_par_sites_sound) *)
 Theorem C15_call_sites :
   (map (fun s => (s_fn s, s_source s, site_class s)) reduction_sites = expected_sites /\
    forallb (fun s => negb (String.eqb (site_class s) "UNCOVERED")) reduction_sites = true) /\
@@ -175,6 +200,9 @@ Print Assumptions C15_reduce_enumerate.
 Print Assumptions C15_simpson_parallel_is_sequential.
 Print Assumptions C15_simpson_branches.
 Print Assumptions C15_call_sites.
+Print Assumptions C15_par_sites_sound.
+Print Assumptions C15_census_complete.
+Print Assumptions C15_range_table.
 Print Assumptions C15_reduce_real_monoids.
 Print Assumptions C15_bridge_trees_admissible.
 Print Assumptions C15_bridge_any_steals.
